@@ -136,6 +136,36 @@ C13_EqualChargeExchange(c) ==
 \* two threshold settings with the same count give the same assembly: Collect depends on the
 \* thresholds only through c.nf  -- by construction of the cell; stated on Cards in MC_Cards.
 
+\* ------------------------------------------------------------------ C08  FFN0 mirrors FFNS
+\* for every massive (FFNS) cell the asymptotic (FFN0) cell selects, per massive kernel, asymptotic kernels with the SAME parton
+\* weights, one per log tower j <= ptoEvol:  gluon / singlet (VV + AA), the heavy-quark initiated ones, and CC quark / gluon
+SumKeys(a, ks, p) == RSumOver(ks \cap DOMAIN a, [k \in ks \cap DOMAIN a |-> a[k][p]])
+C08_AsyMirrorsMassive(c) ==
+  (c.fns = "FFNS" /\ c.fam = "heavy" /\ Supported(c) /\ Supported(With(c, "fns", "FFN0"))) =>
+     LET m == AG(c) a == AG(With(c, "fns", "FFN0")) IN
+     \A p \in Pids :
+       IF c.ew.proc = "CC"
+         THEN /\ SumKeys(a, {"asy/AsyQuark"}, p) = SumKeys(m, {"heavy/NonSinglet"}, p)
+              /\ SumKeys(a, {"asy/AsyGluon"}, p) = SumKeys(m, {"heavy/Gluon"}, p)
+              /\ SumKeys(a, {"asy/AsyLLIntrinsic"}, p) = SumKeys(m, {"intrinsic/Splus", "intrinsic/Rplus"}, p)
+         ELSE /\ \A j \in 0..c.ptoEvol :
+                   /\ ("heavy/GluonVV" \in DOMAIN m \/ "heavy/GluonAA" \in DOMAIN m) =>
+                        (AsyName(j, "Gluon") \in EmptyKeys(c.kind, "nc") \/
+                         SumKeys(a, {AsyName(j, "Gluon")}, p) = SumKeys(m, {"heavy/GluonVV", "heavy/GluonAA"}, p))
+                   /\ ("heavy/SingletVV" \in DOMAIN m \/ "heavy/SingletAA" \in DOMAIN m) =>
+                        (AsyName(j, "Singlet") \in EmptyKeys(c.kind, "nc") \/
+                         SumKeys(a, {AsyName(j, "Singlet")}, p) = SumKeys(m, {"heavy/SingletVV", "heavy/SingletAA"}, p))
+              /\ ("asy/AsyLLIntrinsic" \in DOMAIN a) =>
+                   SumKeys(a, {"asy/AsyLLIntrinsic"}, p) = SumKeys(m, {"intrinsic/Splus", "intrinsic/Rplus"}, p)
+\* the 'missing' channel: the asymptotic kernels skip the LAST light quark (skip_heavylight), the massive one does not:
+\* named deviation of the implementation (see known findings of C08)
+C08_MissingMirrors(c) ==
+  (c.fns = "FFNS" /\ c.fam = "light" /\ c.ew.proc # "CC" /\ Supported(c) /\ Supported(With(c, "fns", "FFN0"))) =>
+     LET m == AG(c) a == AG(With(c, "fns", "FFN0")) IN
+     \A p \in Pids : (p # 21 /\ IAbs(p) < c.nf) =>
+        \A j \in 0..c.ptoEvol : (AsyName(j, "NonSinglet") \in DOMAIN a /\ "heavy/NonSinglet" \in DOMAIN m) =>
+            a[AsyName(j, "NonSinglet")][p] = m["heavy/NonSinglet"][p]
+
 \* ------------------------------------------------------------------ C16  outcome alphabet (assembly side)
 \* intended outcome of a cell: "OK" or an explicit rejection naming the reason
 Outcome(c) ==
